@@ -1,16 +1,19 @@
 import Falcon.Spec.RefFormat
 import Falcon.Model.KeyCodec
 import Falcon.Gen.Params
+import Falcon.Lemmas.RefFormatEq
 
 /-!
 # C16 — interoperability with the reference implementation (PQClean)
 
 `Falcon.RefFormat` transcribes the reference's key decoders (`codec.c`, `pqclean.c`).  Proved here: the
 format parameters of the two sides coincide (lengths, header bytes, field widths, modulus, reserved value)
-and the re-labelling map between the two signature framings is a bijection on headers.  The equality of the
-two *decoding functions* on all byte strings (accumulator-based vs. bit-chunk-based) is executed on every
-run on generated and mutated encodings (`fmt_agree`), and all four interoperability directions are run against
-the real PQClean code.  Known, intended gap (not a defect): the reference's signature decoder caps
+and the re-labelling map between the two signature framings is a bijection on headers; and the two *decoding
+functions* are equal on every byte string (`reference_public_key_decoder_agrees`,
+`reference_secret_key_decoder_agrees`: the reference's 32-bit accumulator loops against this library's bit-chunk
+formulation), so each side decodes exactly the keys the other one does, to the same polynomials.  The transcription
+is compared with the model on generated and mutated encodings on every run (`fmt_agree`), and all four
+interoperability directions are run against the real PQClean code.  Known, intended gap (not a defect): the reference's signature decoder caps
 coefficients at 2047 while this library and the specification accept up to the norm bound (honest signatures
 stay far below 2047).
 -/
@@ -39,6 +42,37 @@ theorem reference_cap_gap : 2048 * 2048 ≤ 34034726 ∧ 5833 * 5833 ≤ 3403472
 /-- both decoders reject the reserved field value −2^(w−1) -/
 theorem reserved_value_rejected_by_both :
     RefFormat.trimI8Decode 0 8 [0x80] = none ∧ KeyCodec.deserializeField (KeyCodec.intBits 8 (-128)) = none := by decide
+
+/-- **public keys**: the reference's import (`modq_decode` behind fixed length and header 0x00|logn) and
+    `PublicKey::from_bytes` accept the same byte strings and return the same coefficients -/
+theorem reference_public_key_decoder_agrees (logn N : Nat) (hN : (logn = 9 ∧ N = 512) ∨ (logn = 10 ∧ N = 1024))
+    (pk : List Nat) (hwf : ∀ x ∈ pk, x < 256) :
+    RefFormat.pkDecode logn pk = (match KeyCodec.pkFromBytes N pk with | .ok (.ok h) => some h | _ => none) :=
+  RefEq.pkDecode_eq logn N hN pk hwf
+
+/-- **secret keys**: the reference's import (three `trim_i8_decode` calls behind fixed length and header
+    0x50|logn) and the model of `SecretKey::from_bytes` accept the same byte strings; the reference's signed
+    coefficients reduce to the residues this library stores -/
+theorem reference_secret_key_decoder_agrees (logn N : Nat) (hN : (logn = 9 ∧ N = 512) ∨ (logn = 10 ∧ N = 1024))
+    (sk : List Nat) (hwf : ∀ x ∈ sk, x < 256) :
+    (RefFormat.skDecode logn sk).map (fun t => (t.1.map Zq.new, t.2.1.map Zq.new, t.2.2.map Zq.new)) =
+      (match KeyCodec.skFromBytes N sk with | .ok (.ok t) => some t | _ => none) :=
+  RefEq.skDecode_eq logn N hN sk hwf
+
+/-- hence the reference decodes every public key this library writes, to the same polynomial -/
+theorem reference_reads_our_public_keys (logn N : Nat) (hN : (logn = 9 ∧ N = 512) ∨ (logn = 10 ∧ N = 1024))
+    (h : List Nat) (hl : h.length = N) (hq : ∀ x ∈ h, x < 12289) :
+    RefFormat.pkDecode logn (KeyCodec.pkToBytes h) = some h := by
+  have hN' : N = 512 ∨ N = 1024 := by rcases hN with ⟨_, a⟩ | ⟨_, a⟩ <;> simp [a]
+  have hrt := KeyCodec.pk_roundtrip N hN' h hl hq
+  have hwf : ∀ x ∈ KeyCodec.pkToBytes h, x < 256 := by
+    -- what `to_bytes` writes are bytes: the header and packed bit octets
+    intro x hx
+    unfold KeyCodec.pkToBytes at hx
+    exact RefEq.bytesOfBits_lt _ x hx
+  rw [RefEq.pkDecode_eq logn N hN _ hwf]
+  unfold RefEq.oursPk
+  rw [hrt]
 
 /-- non-vacuity: both sides decode the all-zero Falcon-512 public key to the zero polynomial -/
 example : RefFormat.pkDecode 9 (9 :: List.replicate 896 0) = some (List.replicate 512 0) := by decide +kernel
